@@ -7,6 +7,22 @@ ROOT = os.path.dirname(os.path.dirname(os.path.abspath(__file__)))
 
 # id -> (technique, level text, level note, design ref)
 CHECKS = {
+ "C01": ("proptest differential against an independent reference interpreter with definedness tracking (model-based oracle), fork-isolated",
+         "Structured programs over every opcode, register, immediate class, control-flow shape, VM kind and input are executed by the interpreter in a forked child and compared (value or error class, and every packet / metadata byte) with a reference interpreter written from the ISA statement; runs that depend on undefined state are discarded and counted. Long programs (32k/65k/100k+ instructions) are a separate stream. Exploration.",
+         "Trusts harness/vrun/src/model.rs; known finding I2 (zero-extended jump immediates) is excluded by its exact signature and reported as KNOWN-FINDING.",
+         "DESIGN.md sections 2.1, 2.2, 3 C01"),
+ "C03": ("proptest differential JIT vs interpreter under a model-checked premise, fork-isolated with guard-page buffers at identical addresses",
+         "The reference model filters the premise (terminates, defined, in bounds); interpreter and x86-64 JIT then run in the same forked child from identical buffers and are compared on the return value and every byte of packet and metadata; compile errors, panics, traps and crashes of the JIT on such programs are violations. Exploration.",
+         "Premise classification trusts the model; watchdog hits are inconclusive; known finding I2 excluded by signature.",
+         "DESIGN.md section 3, C03"),
+ "C04": ("proptest differential Cranelift vs interpreter under a model-checked premise, plus a refusal oracle for programs with local calls",
+         "Equivalence as for C03 with cranelift_compile / execute_program_cranelift on programs without local calls; programs with an eBPF-to-eBPF call (with and without a registered helper whose id equals the displacement) must make cranelift_compile return Err. Exploration.",
+         "Premise classification trusts the model; Cranelift compile time bounds the case count; known finding I2 excluded by signature.",
+         "DESIGN.md section 3, C04"),
+ "C08": ("proptest with instrumented helpers (assembly entry stubs recording rsp, shared-memory call log) against the reference model's call sequence, on all three engines",
+         "Generated programs with 1-4 call sites at local-call depth 0-3, boundary helper ids, registered and unregistered, junk in unused call fields; the observed log (which function, how often, argument order), stack alignment at entry, result and preserved registers are compared with the model; unregistered ids must be a run-time Err (interpreter, only if reached) or a compile-time Err (both compilers). Exploration.",
+         "Alignment is read from rsp captured by a two-instruction assembly stub in front of each helper; Rust-ABI == C-ABI for five u64 arguments on x86-64.",
+         "DESIGN.md section 3, C08"),
  "C06": ("proptest differential against an independent reference verifier over near-valid byte strings (both directions: false accepts and false rejects)",
          "Near-valid byte strings (well-formed by construction, then 0-2 targeted mutations) and random strings are fed to the default verifier through new()/set_program() of all four VM kinds and compared with a reference verifier written from the property statement; every rule is exercised from both sides and the per-rule near-miss histogram is reported. Sampled, not exhaustive: exploration.",
          "Trusts harness/vrun/src/refver.rs as the statement of well-formedness.",
